@@ -316,3 +316,18 @@ def generate(ctx):
         case = {'n': n, 'kT': sd['kT'], 'ops': ops}
         ctx.case('history', case, ncreate >= 1, tags=['rank:%d' % n, 'creates:%d' % min(ncreate + 1, 4)] + ['op:' + o[0] for o in ops[-m:]][:8])
         suite_history(ctx, case)
+    # --- directed sweeps: a size sweep that edits the sigma of a stored explicit-sigma potential in place, and a diameter sweep in tiny steps
+    for q in range(ctx.n(10, 60)):
+        sd = G.gen_system(rng, maxn=2, maxL=16); n = sd['n']; L = sd['dom'][0]; dr = sd['dom'][1]
+        kind = rng.choice(['wca', 'wca', 'ljshift', 'hclj', 'hs', 'exp'])
+        for key, pr in sd['pairs'].items():
+            sg = float('%.4g' % rng.uniform(0.6, 1.2))
+            pr['pot'] = {'wca': ['wca', sg, 0.8], 'ljshift': ['ljshift', sg, 0.6, 2.2], 'hclj': ['hclj', sg, 0.4, 1e6], 'hs': ['hs', sg, 1e6], 'exp': ['exp', sg, 0.3, 0.6, 1e6]}[kind]
+        ops = initial_ops(sd) + [['create']]
+        for _ in range(rng.randint(2, 4)):
+            i = rng.randrange(n); j = rng.randrange(i, n)
+            if rng.random() < 0.6: ops.append(['potsigma', i, j, float('%.4g' % rng.uniform(0.6, 1.4))])
+            else: ops.append(['diam', i, sd['diam'][i] * (1 + rng.choice([1e-6, 3e-7, -2e-6, 1e-9]))])          # a re-assignment np.isclose would call unchanged
+            ops.append(['create'])
+        case = {'n': n, 'kT': sd['kT'], 'ops': ops}
+        ctx.case('history', case, True, tags=['rank:%d' % n, 'directed-sweep:' + kind]); suite_history(ctx, case)
